@@ -495,6 +495,8 @@ def evaluate(F, nodes, base, opts, ctx=None, only=None):
             ctx.count("hostile-doc")
             for c in hz:
                 ctx.cls("hostile:" + c)
+    if ctx is not None and us is not None and getattr(ctx, "remember", None):
+        ctx.remember("ural.urls_from_html:urls_from_html", [doc], {}, us, cap=2500)
     same_urls = us is not None and ub is not None and us == ub
     if us is not None and ub is not None:
         if ctx is not None:
@@ -527,6 +529,8 @@ def evaluate(F, nodes, base, opts, ctx=None, only=None):
             fails.append(("exc-links", {"form": "bytes", "exc": e, "opt": opt}))
         if ctx is not None:
             ctx.ev(2)
+            if ls is not None and getattr(ctx, "remember", None):
+                ctx.remember("ural.links_from_html:links_from_html", [base, doc], {"canonicalize": c, "unique": u, "strip_fragment": sf}, ls, cap=2500)
             if c:
                 ctx.count("opt-canonicalize")
             if u:
